@@ -78,7 +78,7 @@ func VerifRun_C17f() {
 	ctx := context.Background()
 	l := CreateLspServer()
 	l.server = jrpc2.NewServer(handler.Map{}, &jrpc2.ServerOptions{AllowPush: false, Concurrency: 1})
-	nr := len(c17fRules) - 1
+	nr := verifParamOr("RULES", len(c17fRules)) - 1
 	r0 := verifConcretize(verifRange("initIgnore", 0, nr))
 	e0 := (r0*3 + 1) % (nr + 1) // quick tier: the initial error list follows the initial ignore list (every rule occurs once)
 	if verifParamOr("FULL", 1) == 1 {
